@@ -189,6 +189,27 @@ def check_case(case):
             if not _never_validates(utils.validate_isin, s):
                 out.append(("isin-length", f"{s!r}"))
                 break
+    elif kind == "garbage":
+        # characters outside every alphabet: never validates (False or an exception) - and leaves no trace:
+        # the valid identifier checked right afterwards still validates
+        s_ = case["text"]
+        for fn, nm in ((utils.validate_cusip, "cusip"), (utils.validate_isin, "isin")):
+            if not _never_validates(fn, s_):
+                out.append((f"garbage-validates/{nm}", f"{s_!r}"))
+        for fn, arg in ((utils.cusip_checksum, s_[:8]), (utils.sedol_checksum, s_[:6]), (utils.isin_checksum, ("US" + s_)[:11])):
+            try:
+                fn(arg)
+            except Exception:
+                pass
+        for good, fn in (("037833100", utils.validate_cusip), ("US0378331005", utils.validate_isin), ("38259P508", utils.validate_cusip)):
+            try:
+                ok = fn(good)
+            except Exception as e:
+                ok = repr(e)
+            if ok is not True:
+                out.append(("valid-id-rejected-after-garbage-input", f"after {s_!r}: {fn.__name__}({good!r}) = {ok!r}"))
+        if utils.cusip_checksum("08467010") != "8" or utils.sedol_checksum("B0YBKJ") != "7" or utils.isin_checksum("US037833100") != "5":
+            out.append(("checksum-wrong-after-garbage-input", f"after {s_!r}"))
     elif kind == "isin-prefix":
         # unknown prefix: whatever check character, never validates
         stem = case["stem"]
@@ -275,6 +296,11 @@ def _sample_worker(job):
             st.sampled_from(prefixes),
             st.text(alphabet=ALNUM, min_size=9, max_size=9),
         )
+    elif kind == "garbage":
+        strat = st.builds(
+            lambda a, junk, pos: {"kind": "garbage", "base": "", "text": (a[:pos] + junk + a[pos:])[:12]},
+            st.text(alphabet=ALNUM, min_size=8, max_size=12), st.sampled_from([" ", "-", "_", ".", "?", "é", "\n", "--", "  "]), st.integers(0, 8),
+        )
     else:
         known = set(prefixes)
         unknown = [a + b for a in string.ascii_uppercase for b in string.ascii_uppercase if a + b not in known]
@@ -285,7 +311,7 @@ def _sample_worker(job):
         )
 
     def body(case):
-        base = case["base"] + case.get("stem", "")
+        base = case["base"] + case.get("stem", "") + case.get("text", "")
         nontrivial = any(c not in string.digits for c in base)
         labs = [f"sampled-{kind}"]
         if any(c in "*@#" for c in base):
@@ -363,9 +389,9 @@ def run(ctx):
 
     n = ctx.scale(4000, 60000)
     sjobs = []
-    for kind in ("cusip", "sedol", "isin", "isin-prefix"):
+    for kind in ("garbage", "cusip", "sedol", "isin", "isin-prefix"):
         for sh in range(4):
-            sjobs.append((kind, n // 4 if kind != "isin-prefix" else n // 16, ctx.sub_seed(kind, sh)))
+            sjobs.append((kind, n // 4 if kind not in ("isin-prefix", "garbage") else n // 16, ctx.sub_seed(kind, sh)))
     ctx.pmap(_sample_worker, sjobs)
 
     # prefixes: all unknown x stems, all known x 36^2 sub-space
